@@ -195,12 +195,16 @@ impl DerivedTS {
             rust_ty.to_string().to_lowercase().replace("r#", "")
         );
         let crate_rename = &self.crate_rename;
-        let generic_params = generics
-            .type_params()
-            .map(|ty| match self.concrete.get(&ty.ident) {
+        // arguments in the order of the parameters: a defaulted const parameter may stand in
+        // front of a type parameter, so its default is spelled out
+        let generic_params = generics.params.iter().filter_map(|param| match param {
+            GenericParam::Lifetime(_) => None,
+            GenericParam::Type(ty) => Some(match self.concrete.get(&ty.ident) {
                 None => quote! { #crate_rename::Dummy },
                 Some(ty) => quote! { #ty },
-            });
+            }),
+            GenericParam::Const(c) => c.default.as_ref().map(|default| quote! { { #default } }),
+        });
         let ty = quote!(<#rust_ty<#(#generic_params),*> as #crate_rename::TS>);
 
         Ok(quote! {
